@@ -285,6 +285,9 @@ func (e *Exec) zzIntrinsic(name string, args []Value) (Value, bool) {
 		return nil, true
 	case "zzSymbolic":
 		return b.Bool(true), true
+	case "zzThorough":
+		// wider bounds in the thorough (and deep) tier
+		return b.Bool(*flagTier != "quick"), true
 	case "zzAssume":
 		r.assume(e, e.termOf(args[0]), "")
 		// assumption may make the path infeasible; check lazily at next query
